@@ -185,11 +185,64 @@ static J gen_special(Chooser &ch)
   if (ch.chance(30)) root["force surface temperature"] = true;
   g::Opt none; none.grains = false; none.velocity = false; none.custom_tags = false;
   g::FM m;
-  const int special = static_cast<int>(ch.range(0, 3));
+  const int special = static_cast<int>(ch.range(0, 4));
   const bool ridge_case = special == 0;
   J c = J::obj();
   J qs = J::arr();
   const std::array<double, 2> ctr = g::gen_centre(ch, fr);
+  if (special == 4)
+    {
+      // (5) a slab or fault whose sections carry the same grain orientation written in different ways (Euler angles a full turn
+      // apart, 180 against -180, (a,0,c) against (a+c,0,0)): between the coordinates the orientations are interpolated, and two
+      // descriptions of one rotation may arrive there as q and -q
+      g::Frame fc; fc.sph = false; fc.H = 1000e3;
+      J rootc = J::obj();
+      g::frame_to_json(fc, rootc);
+      const bool fault = ch.flip();
+      const double x0 = ch.lattice(-500e3, 500e3, 50e3), y0 = ch.lattice(-500e3, 500e3, 50e3);
+      const int nc = static_cast<int>(ch.range(2, 3));
+      J feat = J::obj();
+      feat["model"] = fault ? "fault" : "subducting plate"; feat["name"] = "line";
+      J co = J::arr();
+      for (int i = 0; i < nc; ++i) co.push(jp(x0 + (i == 1 && nc == 3 ? 40e3 : 0.0), y0 + 400e3 * i));
+      feat["coordinates"] = co;
+      feat["dip point"] = jp(x0 + 5e6, y0);
+      const double L = ch.lattice(150e3, 400e3, 50e3), thick = ch.lattice(60e3, 150e3, 10e3), dip = ch.lattice(30, 90, 15);
+      auto segs = [&]() { J sg = J::obj(); sg["length"] = L; sg["thickness"] = J::arr({J(thick)}); sg["angle"] = J::arr({J(dip)}); return J::arr({sg}); };
+      feat["segments"] = segs();
+      const double a = ch.lattice(-180, 180, 15), b = ch.chance(50) ? 0.0 : ch.lattice(0, 180, 15), cc = ch.lattice(-180, 180, 15);
+      J sections = J::arr();
+      for (int i = 0; i < nc; ++i)
+        {
+          J e;
+          const int how = static_cast<int>(ch.range(0, 4));
+          if (how == 0) e = jp(a, b, cc);
+          else if (how == 1) e = jp(a - 360, b, cc);
+          else if (how == 2) e = jp(a, b, cc + 360);
+          else if (how == 3) e = jp(a + 360, b, cc - 360);
+          else e = b == 0 ? jp(a + cc, 0.0, 0.0) : jp(a, b, cc);
+          J gm = J::obj();
+          gm["model"] = "uniform"; gm["compositions"] = J::arr({J(0)}); gm["Euler angles z-x-z"] = J::arr({e}); gm["grain sizes"] = J::arr({J(0.5)});
+          J sc = J::obj();
+          sc["coordinate"] = i; sc["segments"] = segs(); sc["grains models"] = J::arr({gm});
+          sections.push(sc);
+        }
+      feat["sections"] = sections;
+      rootc["features"] = J::arr({feat});
+      const double ar = dip * DEG;
+      for (int i = 0; i < 16; ++i)
+        {
+          const double al = ch.real(0.05, 0.95) * L, from = (fault ? ch.real(-0.4, 0.4) : ch.real(0.05, 0.9)) * thick;
+          J q = g::make_query(fc, x0 + al * std::cos(ar) - from * std::sin(ar), y0 + ch.pick<double>({0.0, 1.0, 100e3, 200e3, 390e3, 400e3, 600e3}) * (nc == 3 ? 1.0 : 0.5), std::max(0.0, al * std::sin(ar) + from * std::cos(ar)));
+          q["kind"] = "between-sections-with-equal-orientations";
+          qs.push(q);
+        }
+      c["world"] = rootc.dump();
+      c["queries"] = qs;
+      J props = J::arr({jp(3, 0, 1), jp(3, 0, 3), jp(1, 0, 0), jp(4, 0, 0)});
+      c["props"] = props;
+      return c;
+    }
   if (special == 3)
     {
       // (4) a mass conserving slab whose options sit on the edge of their range - no taper at the tip ('taper distance' 0), no extra
@@ -374,6 +427,6 @@ int main(int argc, char **argv)
   return run_main("C13", argc, argv,
   {
     {"total_finite", "worlds with 1..4 features of every type, all deterministic models incl. cooling models, operations, ranges (physical parameter domain of DESIGN section 3) x 4..30 queries at degenerate locations (polygon vertex/edge, trench coordinate/chord, dip point, slab tip region, below trench, poles, +-180, planet centre incl. |p|=1e-300, far away, model bottom, feature depth limits) x the generated list and a list with every property kind; each case runs in its own process so a crash is a failure of the case. Non-trivial: degenerate kinds", 150, gen_total, check_total, 100, true, true},
-    {"special_configurations", "mass conserving slab with options on the edge of their range (taper distance 0, forearc cooling factor 0 / 1 / 10, coupling depth 0) probed on the tip line of a vertical slab, in the wedge above the slab next to the trench, on the trench line and inside; oceanic plate with a half-space / plate model whose ridge runs through the plate, probed exactly on the ridge at depth 0 and below (age zero); area feature whose point-wise max depth pinches out to the min depth along one edge, with a linear model, probed on that edge and its end points at exactly that depth (zero thickness). Same oracle: finite values or a std::exception; plume with a pointed top or bottom (semi-major axis 0 at its first / last cross section, min depth above the first section) probed exactly on its axis at the section depths, between and beyond them", 100, gen_special, check_total, 100, true, true},
+    {"special_configurations", "slab or fault whose sections carry one grain orientation written in different ways (Euler angles a full turn apart, (a,0,c) against (a+c,0,0)), probed between the coordinates; mass conserving slab with options on the edge of their range (taper distance 0, forearc cooling factor 0 / 1 / 10, coupling depth 0) probed on the tip line of a vertical slab, in the wedge above the slab next to the trench, on the trench line and inside; oceanic plate with a half-space / plate model whose ridge runs through the plate, probed exactly on the ridge at depth 0 and below (age zero); area feature whose point-wise max depth pinches out to the min depth along one edge, with a linear model, probed on that edge and its end points at exactly that depth (zero thickness). Same oracle: finite values or a std::exception; plume with a pointed top or bottom (semi-major axis 0 at its first / last cross section, min depth above the first section) probed exactly on its axis at the section depths, between and beyond them", 100, gen_special, check_total, 100, true, true},
   });
 }
